@@ -117,8 +117,15 @@ theorem unlinker_holds (pc : Pc) (h : isUnlinker pc = true) : holdsIntents pc = 
   cases pc <;> simp [isUnlinker, holdsIntents] at h ⊢
 
 /-- the window of a thread that holds nothing and is not past its registration is empty, etc. -/
-theorem window_startOp (H : Bytes → Bytes) (op : COp) : window H (startOp H op) = none := by
-  cases op <;> rfl
+theorem window_startOp (H : Bytes → Bytes) (sh : Shared) (op : COp) :
+    window H (startOp H sh op).1 = none := by
+  cases op with
+  | getRange k s' e' =>
+    simp only [startOp]
+    cases kLookup sh.idx.map k with
+    | none => rfl
+    | some item => by_cases c : s' ≥ item.size <;> simp [c, window]
+  | _ => rfl
 
 end CasModel.Conc
 
@@ -504,6 +511,32 @@ theorem stepPc_concInv (H : Bytes → Bytes) (sz : Bytes → Nat) (s : Sys) (inv
         simp only [hc] at hlocks ⊢
         exact assemble_sameData H sz s inv tid th hth _ _ ⟨rfl, rfl, rfl, rfl⟩
           (by intro h; simp [weight, window]) ⟨by simp [TInv], hops⟩ hlocks
+  | rdLookupR k s' e' =>
+    rw [hpc] at hlocks
+    simp only [stepPc] at hlocks ⊢
+    cases hk : kLookup s.sh.idx.map k with
+    | none =>
+      simp only [hk] at hlocks ⊢
+      exact assemble_sameData H sz s inv tid th hth _ _ ⟨rfl, rfl, rfl, rfl⟩
+        (by intro h; simp [weight, window]) ⟨by simp [TInv], hops⟩ hlocks
+    | some item =>
+      simp only [hk] at hlocks ⊢
+      cases hc : casGet s.sh.cas item.hash with
+      | none =>
+        simp only [hc] at hlocks ⊢
+        exact assemble_sameData H sz s inv tid th hth _ _ ⟨rfl, rfl, rfl, rfl⟩
+          (by intro h; simp [weight, window]) ⟨by simp [TInv], hops⟩ hlocks
+      | some c =>
+        simp only [hc] at hlocks ⊢
+        cases hg : getRange c item.size [] s' e' with
+        | ok out =>
+          simp only [hg] at hlocks ⊢
+          exact assemble_sameData H sz s inv tid th hth _ _ ⟨rfl, rfl, rfl, rfl⟩
+            (by intro h; simp [weight, window]) ⟨by simp [TInv], hops⟩ hlocks
+        | error err =>
+          simp only [hg] at hlocks ⊢
+          exact assemble_sameData H sz s inv tid th hth _ _ ⟨rfl, rfl, rfl, rfl⟩
+            (by intro h; simp [weight, window]) ⟨by simp [TInv], hops⟩ hlocks
   | rdOpened r =>
     rw [hpc] at hlocks
     simp only [stepPc] at hlocks ⊢
@@ -588,13 +621,18 @@ theorem step_concInv (H : Bytes → Bytes) (sz : Bytes → Nat) (s s' : Sys) (ti
           intro o ho; exact hops o (by rw [hops']; simp [ho])
         have hop := hops op (by rw [hops']; simp)
         split at h
-        · injection h with h; subst h
-          exact assemble_sameData H sz s inv tid th hth _ _ ⟨rfl, rfl, rfl, rfl⟩
-            (by intro g; simp [weight, window]) ⟨by simp [TInv], hrest⟩ hlocks
-        · injection h with h; subst h
-          refine assemble_sameData H sz s inv tid th hth _ _ ⟨rfl, rfl, rfl, rfl⟩
-            (by intro g; simp only [weight, window_startOp]; simp) ⟨?_, hrest⟩ hlocks
-          cases op <;> simp only [startOp, TInv] <;> first | trivial | exact hop
+        · cases h
+        injection h with h; subst h
+        refine assemble_sameData H sz s inv tid th hth _ _ ⟨rfl, rfl, rfl, rfl⟩
+          (by intro g; simp only [weight, window_startOp]; simp) ⟨?_, hrest⟩ hlocks
+        cases op with
+        | getRange k s' e' =>
+          simp only [startOp]
+          cases kLookup s.sh.idx.map k with
+          | none => simp [TInv]
+          | some item => by_cases c : s' ≥ item.size <;> simp [c, TInv]
+        | put k c => simpa [startOp, TInv] using hop
+        | _ => simp [startOp, TInv]
     | _ =>
       all_goals
         simp only [hpc] at h
